@@ -82,40 +82,6 @@ theorem common_divisions_guards (ds : List (List Nat)) (hv : ∀ d ∈ ds, Valid
 
 /-! ### the entry points of the code -/
 
-theorem allEqual_spec (d0 : List Nat) (rest : List (List Nat)) (h : allEqual (d0 :: rest) = true) :
-    ∀ d ∈ d0 :: rest, d = d0 := by
-  intro d hd
-  rcases List.mem_cons.mp hd with rfl | hd
-  · rfl
-  · simp only [allEqual, List.all_eq_true] at h
-    exact eq_of_beq (h d hd)
-
-theorem spanDivs_spec (ds : List (List Nat)) (hne : ds ≠ []) (hv : ∀ d ∈ ds, ValidDivs d) :
-    ∃ lo hi, spanDivs ds = some [lo, hi] ∧ lo ≤ hi ∧ ∀ d ∈ ds, ∀ x ∈ d, lo ≤ x ∧ x ≤ hi := by
-  obtain ⟨d, hd⟩ := List.exists_mem_of_ne_nil ds hne
-  have hdl := (hv d hd).1
-  obtain ⟨x, hx⟩ := List.exists_mem_of_ne_nil d (by intro h; rw [h] at hdl; simp at hdl)
-  have hxf : x ∈ ds.flatten := List.mem_flatten.mpr ⟨d, hd, hx⟩
-  cases hmin : minOf ds.flatten with
-  | none =>
-    unfold minOf at hmin
-    split at hmin
-    · rename_i h; rw [h] at hxf; simp at hxf
-    · simp at hmin
-  | some lo =>
-    cases hmax : maxOf ds.flatten with
-    | none =>
-      unfold maxOf at hmax
-      split at hmax
-      · rename_i h; rw [h] at hxf; simp at hxf
-      · simp at hmax
-    | some hi =>
-      refine ⟨lo, hi, by simp [spanDivs, hmin, hmax], ?_, ?_⟩
-      · exact Nat.le_trans (minOf_le _ _ hmin x hxf) (le_maxOf _ _ hmax x hxf)
-      · intro e he y hy
-        have : y ∈ ds.flatten := List.mem_flatten.mpr ⟨e, he, hy⟩
-        exact ⟨minOf_le _ _ hmin y this, le_maxOf _ _ hmax y this⟩
-
 /-- **every entry point answers with a legal division vector**: `calc_divisions_for_align`,
     `MaybeAlignPartitions._divisions`, `Concat._divisions(axis=1)`, `Merge._lower` never raise on ≥ 1 frame with
     legal known divisions, and what they return is again a legal division vector -/
@@ -240,62 +206,6 @@ theorem aligned_partitions_colocate {α : Type} (key : α → Nat) (frames : Lis
   exact colocate_of_truthful key _ F G hF hG i j P Q hP hQ r s hr hs hk
 
 /-! ### the plan `MaybeAlignPartitions._lower` picks -/
-
-theorem maxLen_le (ds : List (List Nat)) : ∀ (m : Nat), m ≤ ds.foldl (fun m d => max m d.length) m ∧
-    ∀ d ∈ ds, d.length ≤ ds.foldl (fun m d => max m d.length) m := by
-  induction ds with
-  | nil => intro m; simp
-  | cons e es ih =>
-    intro m
-    rw [List.foldl_cons]
-    obtain ⟨h1, h2⟩ := ih (max m e.length)
-    refine ⟨by omega, ?_⟩
-    intro d hd
-    rcases List.mem_cons.mp hd with rfl | hd
-    · omega
-    · exact h2 d hd
-
-theorem maybeAlignLower_eq (ds : List (List Nat)) (d : List Nat) (hd : maybeAlignDivisions ds = some d) :
-    maybeAlignLower ds = some (if (ds.length == 1 || allEqual ds) = true then Plan.asIs
-      else if (d.length == 2 && maxLen ds == 2) = true then Plan.setDivisions d else Plan.repartition d) := by
-  unfold maybeAlignLower
-  simp only [hd, Option.bind_eq_bind, Option.bind_some]
-  split
-  · rfl
-  · split <;> rfl
-
-/-- a single-partition frame stays truthful when its two divisions are widened -/
-theorem truthful_widen_single {α : Type} (key : α → Nat) (a : List Nat) (parts : List (List α))
-    (ht : Truthful key a parts) (hl : a.length = 2) (lo hi : Nat) (h : ∀ x ∈ a, lo ≤ x ∧ x ≤ hi) :
-    Truthful key [lo, hi] parts := by
-  obtain ⟨hlen, hs, hrows⟩ := ht
-  have h0 : 0 < a.length := by omega
-  have h1 : 1 < a.length := by omega
-  have b0 := h a[0] (List.getElem_mem h0)
-  have b1 := h a[1] (List.getElem_mem h1)
-  refine ⟨by simp; omega, by simp; omega, ?_⟩
-  intro i p l u hp hl' hu r hr
-  have hi' : i < parts.length := (List.getElem?_eq_some_iff.mp hp).1
-  have hi0 : i = 0 := by omega
-  subst hi0
-  simp only [List.getElem?_cons_zero, List.getElem?_cons_succ, Option.some.injEq, Nat.zero_add] at hl' hu
-  subst hl' hu
-  obtain ⟨r1, r2⟩ := hrows 0 p a[0] a[1] hp (List.getElem?_eq_getElem h0) (List.getElem?_eq_getElem h1) r hr
-  refine ⟨by omega, Or.inr ⟨by omega, ?_⟩⟩
-  rcases r2 with r2 | ⟨_, r2⟩ <;> omega
-
-theorem foldl_maxLen_le_two : ∀ (L : List (List Nat)) (m : Nat), m ≤ 2 → (∀ e ∈ L, e.length = 2) →
-    L.foldl (fun m d => max m d.length) m ≤ 2 := by
-  intro L
-  induction L with
-  | nil => intro m hm _; simpa using hm
-  | cons x xs ih =>
-    intro m hm hx
-    rw [List.foldl_cons]
-    apply ih
-    · have := hx x List.mem_cons_self
-      omega
-    · exact fun e he => hx e (List.mem_cons_of_mem _ he)
 
 /-- **aligned_plan_truthful** — whichever plan `MaybeAlignPartitions._lower` picks for frames with known divisions
     (blockwise as they are: one frame / all divisions equal; `SetDivisions` only: single-partition frames;
